@@ -58,7 +58,7 @@ def point_body(case, rec):
     if t <= tt[0]:
         rec.exclude('acausal_time')       # exact zeros are C04
         return
-    if info['inside'] and 0 < info['end_dist'] < 1e-5:
+    if info['inside'] and 0 < info['end_dist'] <= 1e-5 * (1 + 1e-9):
         rec.exclude('interior_point_within_1e-5_of_end')
         return
     if info['ratio'] is None or info['ratio'] > 16:
